@@ -7,7 +7,6 @@
 //! Exit codes: 0 held, 1 violation (`VIOLATION property=C20 replay=<file>`), 2 harness error.
 
 mod plan;
-mod sdl2json;
 mod server;
 
 use plan::{Fixture, Meaning, World};
